@@ -71,7 +71,7 @@ CLAIMS = {
              "in-place buffer or the template X @ w[:p] + fit_intercept * w[-1]; _glm_fit's "
              "warm start follows the same template and reads fitted state only under "
              "warm_start; no solver object is cached across calls."
-             " A model-fit buffer created once before a path loop is paired only with zero starts, copies of the previous column, or is recomputed on the way to solve.",
+             " The pairing itself is decided as identities on a 3x3 symbolic design: epoch kernels (coordinate, group, multitask; dense and CSC) leave Xw_after - Xw_before == X @ (w_after - w_before); prox-Newton and group prox-Newton descent directions return X_delta_w == X[:, ws] @ delta_w (+ intercept move); the three line searches, on a witness where the unit step is rejected, move every coefficient, the intercept and the model fit by one common multiple of the direction. A model-fit buffer created once before a path loop is paired only with zero starts, copies of the previous column, or is recomputed on the way to solve.",
         design_ref="DESIGN.md §3.1 R-NONE/R-PAIR, §4 C05",
         note="That a warm-started run meets the certificate numerically is C01's undecided part.",
         technique="AST/CFG pattern rules with reaching definitions and effect summaries",
